@@ -20,6 +20,10 @@ def chunkStart (n c k : Int) : Int := (ChunkBounds.run n c k).start_index
 def chunkEnd (n c k : Int) : Int := (ChunkBounds.run n c k).end_index
 def chunkErr (n c k : Int) : Bool := (ChunkBounds.run n c k).err
 
+/-- the slice `islice(consume(g, start), end - start)` of the enumeration, as a total function -/
+def chunkPairs (n c k : Int) : List (Int × Int) :=
+  ((lowerTri n).drop (chunkStart n c k).toNat).take (chunkEnd n c k - chunkStart n c k).toNat
+
 /-- the tail idiom `g = lower_triangular_indices(n); consume(g, start); list(islice(g, end-start))`.
     `islice` with a negative count raises `ValueError`; the bounds theorem shows that never
     happens on valid input, the model keeps the branch. -/
@@ -29,7 +33,7 @@ def chunk (n c k : Int) : Except Err (List (Int × Int)) :=
     let s := chunkStart n c k
     let e := chunkEnd n c k
     if s < 0 || e - s < 0 then .error .valueError
-    else .ok (((lowerTri n).drop s.toNat).take (e - s).toNat)
+    else .ok (chunkPairs n c k)
 
 /-- `ChunkedDistanceMatrix`: the filled prefix of the three storage arrays.  The storage beyond
     `current_index` is always zero (it is only ever written at `current_index`), so the three
@@ -80,6 +84,23 @@ def CDM.concat (ms : List (CDM α)) : Except Err (CDM α) :=
 def calcChunk (n c k : Int) (metric : Int → Int → α) : Except Err (CDM α) := do
   let idx ← chunk n c k
   idx.foldlM (fun (acc : CDM α) p => acc.addValue p.1 p.2 (metric p.1 p.2)) (CDM.empty n)
+
+/-- the whole pipeline of the CLI + `concat`: every listed chunk index is computed independently
+    (`calculate_distance_matrix --chunk-index c --n-chunks k`, saved, loaded -- identity on the filled
+    prefix) and the loaded matrices are concatenated in the listed order. -/
+def assemble (n k : Int) (metric : Int → Int → α) (cs : List Int) : Except Err (CDM α) :=
+  match cs.mapM (fun c => calcChunk n c k metric) with
+  | .error e => .error e
+  | .ok ms => CDM.concat ms
+
+/-- `MSEDistance.distance(a, b)`: `np.mean((f(a) - f(b)) ** 2)` where `f` is `expit` applied pointwise
+    (`sigmoid=True`) or the identity; `cast` is the conversion of the element count into `α`.
+    Generic over the number type: `Float` in the driver, `ℝ` in the theorems. -/
+def mseDist [Add α] [Sub α] [Mul α] [Div α] [OfNat α 0] (cast : Nat → α) (f : α → α) (a b : List α) : α :=
+  let d := List.zipWith (fun x y => (f x - f y) * (f x - f y)) a b
+  d.foldl (· + ·) 0 / cast d.length
+
+def expitF (x : Float) : Float := 1.0 / (1.0 + Float.exp (-x))
 
 /-! ### driver -/
 
@@ -141,6 +162,19 @@ def handle : List String → Option String
       | .ok m => match m.toDense with
         | .error e => pure (showErr e)
         | .ok d => pure (showIntListList d)
+  | ["assemble", n, k, z, cs] => do
+      let n ← parseInt? n; let k ← parseInt? k; let z ← parseInt? z; let cs ← parseIntList? cs
+      match assemble n k (stubMetric z) cs with
+      | .error e => pure (showErr e)
+      | .ok m => match m.toDense with
+        | .error e => pure (showErr e)
+        | .ok d => pure (showIntListList d)
+  | ["mse", sig, a, b] => do
+      let sig ← parseBool? sig; let a ← parseNatList? a; let b ← parseNatList? b
+      let fa := a.map (fun x => Float.ofBits x.toUInt64)
+      let fb := b.map (fun x => Float.ofBits x.toUInt64)
+      let r := mseDist (fun n => n.toFloat) (if sig then expitF else id) fa fb
+      pure (toString r.toBits.toNat)
   | _ => none
 
 end Batchie.Chunks
